@@ -3,7 +3,9 @@ from __future__ import annotations
 
 import hashlib
 
-from mc import core, joinspace as js
+from mc import core, joinspace as js, provenance
+
+NROUTES = len(provenance.TABLE_ROUTES)
 from mc.core import Agg, V
 from mc.models import obs, truthful
 
@@ -32,6 +34,7 @@ def run_unit(unit):
     agg = Agg()
     h = hashlib.sha256()
     last = None
+    vi = 0          # provenance round-robin: both tables are built through a different route for every case
     for lkeys, rkeys in js.cases(unit):
         agg.states += 1
         nt = nontrivial(lkeys, rkeys)
@@ -43,8 +46,10 @@ def run_unit(unit):
         for form in forms:
             case = js.describe_case(kind, nkeys, config, form, lkeys, rkeys, METHOD, "many_to_many")
             try:
-                L, lon, lcols = js.build_side("L", lkeys, nkeys, config, form)
-                R, ron, rcols = js.build_side("R", rkeys, nkeys, config, form)
+                vi += 1
+                L, lon, lcols = js.build_side("L", lkeys, nkeys, config, form, variant=vi % NROUTES)
+                R, ron, rcols = js.build_side("R", rkeys, nkeys, config, form, variant=(vi // NROUTES) % NROUTES)
+                case["routes"] = [provenance.TABLE_ROUTES[vi % NROUTES], provenance.TABLE_ROUTES[(vi // NROUTES) % NROUTES]]
             except Exception as e:
                 agg.violation(V("join.build-inputs", "raises-" + type(e).__name__, case))
                 continue
@@ -119,8 +124,9 @@ def replay(rec):
         js.hist_one(agg, hashlib.sha256(), case["kind"], case["form"], (case["method"],), lkeys, rkeys, side, idx, new, path)
         return set(agg.viol)
     form = case["form"]
-    L, lon, lcols = js.build_side("L", lkeys, case["nkeys"], case["config"], form)
-    R, ron, rcols = js.build_side("R", rkeys, case["nkeys"], case["config"], form)
+    routes = case.get("routes") or ["direct", "direct"]
+    L, lon, lcols = js.build_side("L", lkeys, case["nkeys"], case["config"], form, variant=provenance.TABLE_ROUTES.index(routes[0]))
+    R, ron, rcols = js.build_side("R", rkeys, case["nkeys"], case["config"], form, variant=provenance.TABLE_ROUTES.index(routes[1]))
     want = js.ref_inner(lcols, rcols, lkeys, rkeys)
     site = f"inner_join.{form}"
     try:
